@@ -8,6 +8,7 @@ import (
 	"encoding/json"
 	"fmt"
 	"reflect"
+	"sort"
 	"strings"
 	"testing"
 
@@ -52,6 +53,93 @@ type Case struct {
 	// "no-kid" the same key material as a JWK without the optional key id
 	PresentForm string `json:"present_form,omitempty"`
 	Exec        bool   `json:"exec"` // also through the executable and the HTTP server
+	// Text: how the serialised envelope is written for the entry points that
+	// take text: "" as json.Marshal writes it, "escaped" every string and member
+	// name as \uXXXX escapes (surrogate pairs above the basic plane, which is
+	// how ASCII-only encoders write them), "spaced" with blanks and line breaks
+	// between all tokens. With a form the header notes hold characters outside
+	// the basic plane before the history starts.
+	Text string `json:"text,omitempty"`
+}
+
+// rewrite serialises the same JSON value in another textual form.
+func rewrite(data []byte, form string) ([]byte, error) {
+	dec := json.NewDecoder(bytes.NewReader(data))
+	dec.UseNumber()
+	var tree any
+	if err := dec.Decode(&tree); err != nil {
+		return nil, err
+	}
+	var sb strings.Builder
+	sp := func() {
+		if form == "spaced" {
+			sb.WriteString("\n  ")
+		}
+	}
+	str := func(v string) {
+		if form != "escaped" {
+			out, _ := json.Marshal(v)
+			sb.Write(out)
+			return
+		}
+		sb.WriteByte('"')
+		for _, r := range v {
+			if r < 0x10000 {
+				fmt.Fprintf(&sb, `\u%04x`, r)
+			} else {
+				r -= 0x10000
+				fmt.Fprintf(&sb, `\ud%03x\ud%03x`, 0x800+(r>>10), 0xc00+(r&0x3ff))
+			}
+		}
+		sb.WriteByte('"')
+	}
+	var walk func(v any)
+	walk = func(v any) {
+		switch t := v.(type) {
+		case map[string]any:
+			ks := make([]string, 0, len(t))
+			for k := range t {
+				ks = append(ks, k)
+			}
+			sort.Strings(ks)
+			sb.WriteByte('{')
+			for i, k := range ks {
+				if i > 0 {
+					sb.WriteByte(',')
+				}
+				sp()
+				str(k)
+				sp()
+				sb.WriteByte(':')
+				sp()
+				walk(t[k])
+			}
+			sp()
+			sb.WriteByte('}')
+		case []any:
+			sb.WriteByte('[')
+			for i, x := range t {
+				if i > 0 {
+					sb.WriteByte(',')
+				}
+				sp()
+				walk(x)
+			}
+			sp()
+			sb.WriteByte(']')
+		case string:
+			str(t)
+		default:
+			out, _ := json.Marshal(t)
+			sb.Write(out)
+		}
+	}
+	walk(tree)
+	out := []byte(sb.String())
+	if !json.Valid(out) {
+		return nil, fmt.Errorf("rewrite produced invalid JSON")
+	}
+	return out, nil
 }
 
 var invoiceDocs []corpus.Doc
@@ -178,6 +266,10 @@ func judge(c Case, o *vh.Obs) {
 	if err != nil {
 		o.Discard()
 		return
+	}
+	if c.Text != "" {
+		o.Class("text-" + c.Text)
+		env.Head.Notes = "Smile \U0001F600 \U0001D11E " + env.Head.Notes
 	}
 	var sigs []signedHeader
 	tamperedAfterSign, recalculated, headerBroken := false, false, false
@@ -412,6 +504,22 @@ func judge(c Case, o *vh.Obs) {
 		o.Failf("marshal", "%v", err)
 		return
 	}
+	if c.Text != "" {
+		if data, err = rewrite(data, c.Text); err != nil {
+			o.Failf("harness:rewrite", "%v", err)
+			return
+		}
+		// the library reading the same text
+		env2 := new(gobl.Envelope)
+		if err := json.Unmarshal(data, env2); err != nil {
+			o.Failf("verify:library-text:unreadable", "the %s text of the envelope does not parse: %v", c.Text, err)
+			return
+		}
+		if got := env2.Verify(pub) == nil; got != expectLib {
+			o.Failf(verdictSig("library-text", got), "Envelope.Verify of the %s text = %v, expected %v (%s) after %s", c.Text, got, expectLib, why, describe(c))
+			return
+		}
+	}
 	got = cli.Verify(context.Background(), bytes.NewReader(data), pub) == nil
 	if got != expectCLI {
 		o.Failf(verdictSig("cli", got), "cli.Verify = %v, expected %v (%s; envelope valid=%v) after %s", got, expectCLI, why, valid, describe(c))
@@ -485,6 +593,9 @@ func verdictSig(path string, got bool) string {
 
 func describe(c Case) string {
 	var parts []string
+	if c.Text != "" {
+		parts = append(parts, "text:"+c.Text)
+	}
 	for _, a := range c.Actions {
 		s := a.Kind
 		if a.Kind == "sign" {
@@ -589,6 +700,7 @@ func genCase(t *rapid.T) Case {
 	if rapid.IntRange(0, 4).Draw(t, "keyform") == 0 {
 		c.PresentForm = "no-kid"
 	}
+	c.Text = rapid.SampledFrom([]string{"", "", "", "escaped", "spaced"}).Draw(t, "text")
 	return c
 }
 
@@ -605,6 +717,9 @@ func enumTamper(yield func(Case) bool) {
 			cs := []Case{
 				{Doc: d.Path, Actions: []Action{{Kind: "sign", Key: 0}}, Present: 0, Exec: exec},
 				{Doc: d.Path, Actions: []Action{{Kind: "sign", Key: 0}}, Present: 1, Exec: exec},
+				{Doc: d.Path, Actions: []Action{{Kind: "sign", Key: 0}}, Present: 0, Exec: exec, Text: "escaped"},
+				{Doc: d.Path, Actions: []Action{{Kind: "sign", Key: 0}}, Present: 0, Exec: exec, Text: "spaced"},
+				{Doc: d.Path, Actions: []Action{{Kind: "sign", Key: 0}, {Kind: "edit-doc-recalc", Arg: what, Val: "1"}}, Present: 0, Exec: exec, Text: "escaped"},
 				{Doc: d.Path, Actions: []Action{{Kind: "sign", Key: 0}}, Present: 1, PresentForm: "no-kid", Exec: exec},
 				{Doc: d.Path, Actions: []Action{{Kind: "sign", Key: 0}}, Present: 0, PresentForm: "no-kid", Exec: exec},
 				{Doc: d.Path, Actions: []Action{{Kind: "sign", Key: 0}, {Kind: "edit-doc-recalc", Arg: what, Val: "1"}}, Present: 0, Exec: exec},
@@ -625,7 +740,7 @@ func enumTamper(yield func(Case) bool) {
 func init() {
 	vh.OnExit(goblexec.Stop)
 	vh.Describe(
-		"Histories over every signable example invoice: 0-3 header decorations (links, tags, meta, notes), a signature by one of three keys, then 0-5 post-signing steps drawn from: add stamp / link (with or without title and MIME type) / tag (also the blank tag) / meta (also the empty value) / notes, change the title, description or MIME type of a link, remove a meta entry, extend the notes before or after their text, alter uuid / digest, remove a tag / stamp / link, edit the document with and without recalculation, serialise+parse, sign again (any key), unsign; finally verification with the signer's key (75%) or another (a fifth of the time written as a JWK without the optional key id), through Envelope.Verify, VerifySignature, cli.Verify, the bulk verify action (in process) and - for a tenth of the cases and the enumerated tamper scenarios - the `gobl verify -k` executable, POST /verify and POST /bulk of a running `gobl serve`. Model: the header JSON recorded at each signing; expected = signed AND every signature made with the presented key AND the current header still contains each signed header (uuid, dig, stamps, links, tags, meta, notes); command-line paths additionally need the envelope to validate. Every path must return exactly the expected verdict; after an accepted verification a different key pair carrying the signer's key id must be refused by the same in-memory envelope. Non-trivial: the history ends signed.",
+		"Histories over every signable example invoice: 0-3 header decorations (links, tags, meta, notes), a signature by one of three keys, then 0-5 post-signing steps drawn from: add stamp / link (with or without title and MIME type) / tag (also the blank tag) / meta (also the empty value) / notes, change the title, description or MIME type of a link, remove a meta entry, extend the notes before or after their text, alter uuid / digest, remove a tag / stamp / link, edit the document with and without recalculation, serialise+parse, sign again (any key), unsign; finally verification with the signer's key (75%) or another (a fifth of the time written as a JWK without the optional key id), through Envelope.Verify, VerifySignature, cli.Verify (for two fifths of the cases the serialised envelope is rewritten with every string and member name as \\u escapes - surrogate pairs for the characters outside the basic plane put into the notes beforehand - or with blanks and line breaks between all tokens, and the library also verifies what it reads from that text), the bulk verify action (in process) and - for a tenth of the cases and the enumerated tamper scenarios - the `gobl verify -k` executable, POST /verify and POST /bulk of a running `gobl serve`. Model: the header JSON recorded at each signing; expected = signed AND every signature made with the presented key AND the current header still contains each signed header (uuid, dig, stamps, links, tags, meta, notes); command-line paths additionally need the envelope to validate. Every path must return exactly the expected verdict; after an accepted verification a different key pair carrying the signer's key id must be refused by the same in-memory envelope. Non-trivial: the history ends signed.",
 		"signatures are random (ECDSA); only verdicts are compared",
 		"whether the envelope validates is taken from Envelope.Validate (its rules are property C10)",
 	)
